@@ -157,7 +157,7 @@ theorem destWidth_view (t : TypeDesc) :
 
 /-- scanColumn with a recorder on every destination the column occupies -/
 theorem scanColumn_ok (col : ColumnInfo) (t : TypeDesc) (c : Cell) (k i : Nat) (hcol : col.typ = viewType t)
-    (hw : wfCell t c = true) (hwt : wfType t = true) (hnc : noCollClass t = true) (hk : destWidth t ≤ k) :
+    (hw : wfCell t c = true) (hwt : wfType t = true) (hk : destWidth t ≤ k) :
     scanColumn (cellData c) col (List.replicate k true) i
       = .ok (destWidth t) (cellCalls i t c) := by
   cases t with
@@ -193,9 +193,7 @@ theorem scanColumn_ok (col : ColumnInfo) (t : TypeDesc) (c : Cell) (k i : Nat) (
     cases c <;> simp_all [scanColumn, List.replicate_succ, viewType, cellCalls, destWidth, wfCell, typeTuple]
   | custom cls =>
     obtain ⟨k', rfl⟩ : ∃ k', k = k' + 1 := ⟨k - 1, by simp [destWidth] at hk; omega⟩
-    have hnc' : ¬ (classType cls = 0x20 ∨ classType cls = 0x21 ∨ classType cls = 0x22 ∨ classType cls = 0x31) := by
-      simpa [noCollClass] using hnc
-    have hid : classType cls ≠ 0x31 := fun h => hnc' (by simp [h])
+    have hid : customType cls ≠ 0x31 := (customType_ne cls).2.2.2.1
     cases c <;> simp_all [scanColumn, List.replicate_succ, viewType, cellCalls, destWidth, wfCell, typeTuple]
   | list e =>
     obtain ⟨k', rfl⟩ : ∃ k', k = k' + 1 := ⟨k - 1, by simp [destWidth] at hk; omega⟩
@@ -218,7 +216,7 @@ def eRow (cs : List Cell) : FrameRead.Bytes := cs.flatMap eCell
 def colsMatch (cols : List ColumnInfo) (ts : List TypeDesc) : Prop := cols.map (·.typ) = ts.map viewType
 
 def wfRow (tcs : List (TypeDesc × Cell)) : Bool :=
-  tcs.all (fun tc => wfCell tc.1 tc.2 && wfType tc.1 && noCollClass tc.1)
+  tcs.all (fun tc => wfCell tc.1 tc.2 && wfType tc.1)
 
 theorem scanCols_ok (cols : List ColumnInfo) (tcs : List (TypeDesc × Cell)) (i W : Nat) (rest : FrameRead.Bytes)
     (acc : List Call) (hm : colsMatch cols (tcs.map (·.1))) (hw : wfRow tcs = true)
@@ -237,16 +235,16 @@ theorem scanCols_ok (cols : List ColumnInfo) (tcs : List (TypeDesc × Cell)) (i 
     | cons col cols =>
       have hm' : col.typ = viewType t ∧ colsMatch cols (tcs.map (·.1)) := by
         simpa [colsMatch] using hm
-      have hw' : ((wfCell t c = true ∧ wfType t = true) ∧ noCollClass t = true) ∧ wfRow tcs = true := by
+      have hw' : (wfCell t c = true ∧ wfType t = true) ∧ wfRow tcs = true := by
         simpa [wfRow] using hw
       have hW' : i + destWidth t + totalWidth (tcs.map (·.1)) = W := by
         simp [totalWidth] at hW ⊢; omega
       have hk : destWidth t ≤ W - i := by omega
       simp only [scanCols, List.map_cons, eRow, List.flatMap_cons, List.append_assoc]
-      rw [readColumn_eCell t c _ hw'.1.1.1]
+      rw [readColumn_eCell t c _ hw'.1.1]
       have hdrop : (List.replicate W true).drop i = List.replicate (W - i) true := by simp
       simp only [hdrop]
-      rw [scanColumn_ok col t c (W - i) i hm'.1 hw'.1.1.1 hw'.1.1.2 hw'.1.2 hk]
+      rw [scanColumn_ok col t c (W - i) i hm'.1 hw'.1.1 hw'.1.2 hk]
       have := ih cols (i + destWidth t) (acc ++ cellCalls i t c) hm'.2 hw'.2 hW'
       simp only [eRow] at this
       simp only [this]
@@ -311,14 +309,7 @@ theorem scan_end (it : Iter) (dests : List Bool) (hf : it.failed = false) (hp : 
   unfold scan
   simp [hf, hp]
 
-/-! ## the Scanner (where every tuple column of width ≠ 1 is the last column) -/
-
-/-- every column but the last occupies exactly one destination: then the destination position
-    iterScanner.Scan indexes the cells with IS the column index -/
-def narrow : List TypeDesc → Bool
-  | [] => true
-  | [_] => true
-  | t :: r => destWidth t == 1 && narrow r
+/-! ## the Scanner -/
 
 theorem readCells_ok (tcs : List (TypeDesc × Cell)) (rest : FrameRead.Bytes) (hw : wfRow tcs = true) :
     readCells tcs.length (eRow (tcs.map (·.2)) ++ rest) = .ok (tcs.map (fun tc => cellData tc.2), rest) := by
@@ -326,20 +317,23 @@ theorem readCells_ok (tcs : List (TypeDesc × Cell)) (rest : FrameRead.Bytes) (h
   | nil => simp [readCells, eRow]
   | cons tc tcs ih =>
     obtain ⟨t, c⟩ := tc
-    have hw' : ((wfCell t c = true ∧ wfType t = true) ∧ noCollClass t = true) ∧ wfRow tcs = true := by
+    have hw' : (wfCell t c = true ∧ wfType t = true) ∧ wfRow tcs = true := by
       simpa [wfRow] using hw
     simp only [List.length_cons, readCells, List.map_cons, eRow, List.flatMap_cons, List.append_assoc]
-    rw [readColumn_eCell t c _ hw'.1.1.1]
+    rw [readColumn_eCell t c _ hw'.1.1]
     have := ih hw'.2
     simp only [eRow] at this
     simp only [this]
 
+/-- the column loop of iterScanner.Scan: column `c` reads cell `c` of the row whatever the number of
+    destinations the earlier columns occupied (`pre`: the cells of the columns already scanned,
+    `i`: the destination position reached) -/
 theorem scannerCols_ok (cols : List ColumnInfo) (tcs : List (TypeDesc × Cell)) (pre : List (Option FrameRead.Bytes))
-    (W : Nat) (acc : List Call) (hm : colsMatch cols (tcs.map (·.1))) (hw : wfRow tcs = true)
-    (hn : narrow (tcs.map (·.1)) = true) (hW : pre.length + totalWidth (tcs.map (·.1)) = W) :
-    scannerCols cols pre.length (List.replicate W true) (pre ++ tcs.map (fun tc => cellData tc.2)) acc
-      = .done [] (acc ++ rowCalls pre.length tcs) := by
-  induction tcs generalizing cols pre acc with
+    (i W : Nat) (acc : List Call) (hm : colsMatch cols (tcs.map (·.1))) (hw : wfRow tcs = true)
+    (hW : i + totalWidth (tcs.map (·.1)) = W) :
+    scannerCols cols pre.length i (List.replicate W true) (pre ++ tcs.map (fun tc => cellData tc.2)) acc
+      = .done [] (acc ++ rowCalls i tcs) := by
+  induction tcs generalizing cols pre i acc with
   | nil =>
     have : cols = [] := by simpa [colsMatch] using hm
     subst this
@@ -351,34 +345,24 @@ theorem scannerCols_ok (cols : List ColumnInfo) (tcs : List (TypeDesc × Cell)) 
     | cons col cols =>
       have hm' : col.typ = viewType t ∧ colsMatch cols (tcs.map (·.1)) := by
         simpa [colsMatch] using hm
-      have hw' : ((wfCell t c = true ∧ wfType t = true) ∧ noCollClass t = true) ∧ wfRow tcs = true := by
+      have hw' : (wfCell t c = true ∧ wfType t = true) ∧ wfRow tcs = true := by
         simpa [wfRow] using hw
-      have hW' : pre.length + destWidth t + totalWidth (tcs.map (·.1)) = W := by
+      have hW' : i + destWidth t + totalWidth (tcs.map (·.1)) = W := by
         simp [totalWidth] at hW ⊢; omega
-      have hk : destWidth t ≤ W - pre.length := by omega
+      have hk : destWidth t ≤ W - i := by omega
       have hlen : ¬ pre.length ≥ (pre ++ List.map (fun tc => cellData tc.2) ((t, c) :: tcs)).length := by
         simp
       have hget : (pre ++ List.map (fun tc => cellData tc.2) ((t, c) :: tcs)).getD pre.length none = cellData c := by
         simp [List.getD_eq_getElem?_getD]
-      have hdrop : (List.replicate W true).drop pre.length = List.replicate (W - pre.length) true := by simp
+      have hdrop : (List.replicate W true).drop i = List.replicate (W - i) true := by simp
       simp only [scannerCols]
       rw [if_neg hlen, hget, hdrop,
-        scanColumn_ok col t c (W - pre.length) pre.length hm'.1 hw'.1.1.1 hw'.1.1.2 hw'.1.2 hk]
-      cases tcs with
-      | nil =>
-        have : cols = [] := by simpa [colsMatch] using hm'.2
-        subst this
-        simp [scannerCols, rowCalls]
-      | cons tc2 tcs2 =>
-        have hn' : destWidth t = 1 ∧ narrow (List.map (·.1) (tc2 :: tcs2)) = true := by
-          simpa [narrow] using hn
-        have := ih cols (pre ++ [cellData c]) (acc ++ cellCalls pre.length t c) hm'.2 hw'.2 hn'.2
-          (by simp only [List.length_append, List.length_singleton]; omega)
-        simp only [List.length_append, List.length_singleton, List.append_assoc, List.singleton_append] at this
-        simp only [hn'.1]
-        simp only [List.map_cons] at this ⊢
-        rw [this]
-        simp [rowCalls, hn'.1]
+        scanColumn_ok col t c (W - i) i hm'.1 hw'.1.1 hw'.1.2 hk]
+      have := ih cols (pre ++ [cellData c]) (i + destWidth t) (acc ++ cellCalls i t c) hm'.2 hw'.2 hW'
+      simp only [List.length_append, List.length_singleton, List.append_assoc, List.singleton_append] at this
+      simp only [List.map_cons] at this ⊢
+      rw [this]
+      simp [rowCalls]
 
 /-- `n` rounds of `Next() == true; Scan(dests) == nil` -/
 def scannerRows (dests : List Bool) : Nat → Scanner → Option (List (List Call) × Scanner)
@@ -396,7 +380,7 @@ def scannerRows (dests : List Bool) : Nat → Scanner → Option (List (List Cal
 
 theorem scanner_row (s : Scanner) (tcs : List (TypeDesc × Cell)) (rest : FrameRead.Bytes) (W : Nat)
     (hf : s.it.failed = false) (hp : s.it.pos < s.it.numRows) (hc : s.cols.length = tcs.length)
-    (hm : colsMatch s.it.md.columns (tcs.map (·.1))) (hw : wfRow tcs = true) (hn : narrow (tcs.map (·.1)) = true)
+    (hm : colsMatch s.it.md.columns (tcs.map (·.1))) (hw : wfRow tcs = true)
     (hW : totalWidth (tcs.map (·.1)) = W) (ha : s.it.md.actualColCount = (W : Int))
     (hb : s.it.buf = eRow (tcs.map (·.2)) ++ rest) :
     ∃ s1, s.next = .ok (s1, true) ∧
@@ -411,14 +395,14 @@ theorem scanner_row (s : Scanner) (tcs : List (TypeDesc × Cell)) (rest : FrameR
   · unfold Scanner.scan
     have h3 : ¬ ((List.replicate W true).length : Int) ≠ s.it.md.actualColCount := by simp [ha]
     simp only [Bool.not_true, Bool.false_eq_true, if_false, h3]
-    have := scannerCols_ok s.it.md.columns tcs [] W [] hm hw hn (by simpa using hW)
+    have := scannerCols_ok s.it.md.columns tcs [] 0 W [] hm hw (by simpa using hW)
     simp only [List.length_nil, List.nil_append] at this
     rw [this]
 
 theorem scannerRows_ok (rows : List (List (TypeDesc × Cell))) (ts : List TypeDesc) (s : Scanner) (W : Nat) (rest : FrameRead.Bytes)
     (hf : s.it.failed = false) (hn : s.it.pos + rows.length = s.it.numRows) (hc : s.cols.length = ts.length)
     (hm : colsMatch s.it.md.columns ts) (hts : ∀ row ∈ rows, row.map (·.1) = ts)
-    (hw : ∀ row ∈ rows, wfRow row = true) (hnar : narrow ts = true)
+    (hw : ∀ row ∈ rows, wfRow row = true)
     (hW : totalWidth ts = W) (ha : s.it.md.actualColCount = (W : Int))
     (hb : s.it.buf = eRows (rows.map (fun row => row.map (·.2))) ++ rest) :
     ∃ s1, scannerRows (List.replicate W true) rows.length s = some (rows.map (rowCalls 0), s1) ∧
@@ -438,7 +422,7 @@ theorem scannerRows_ok (rows : List (List (TypeDesc × Cell))) (ts : List TypeDe
       simpa [eRows, eRow] using hb
     have hp : s.it.pos < s.it.numRows := by simp at hn; omega
     obtain ⟨s1, h1, h2⟩ := scanner_row s row _ W hf hp (by rw [hc, hlen]) (by rw [hrow]; exact hm) (hw row (by simp))
-      (by rw [hrow]; exact hnar) (by rw [hrow]; exact hW) ha hb'
+      (by rw [hrow]; exact hW) ha hb'
     obtain ⟨s2, h3, h4⟩ := ih
       { it := { s.it with pos := s.it.pos + 1, buf := eRows (rows.map (fun row => row.map (·.2))) ++ rest },
         cols := row.map (fun tc => cellData tc.2), valid := false }
